@@ -7,3 +7,13 @@ package scanner
 func (s *Scanner) ZVCounters() (certsProcessed, precertsSeen, unparsableEntries, entriesWithNonFatalErrors int64) {
 	return s.certsProcessed, s.precertsSeen, s.unparsableEntries, s.entriesWithNonFatalErrors
 }
+
+// ZVSetOptions replaces the scanner's options between two Scans of the SAME *Scanner, treating |opts| exactly
+// like NewScanner does (verification hook: lets a harness reuse one Scanner value for several scans with
+// different start indexes; must not be called while a Scan is running).
+func (s *Scanner) ZVSetOptions(opts ScannerOptions) {
+	if opts.Matcher == nil {
+		opts.Matcher = &MatchAll{}
+	}
+	s.opts = opts
+}
